@@ -586,7 +586,7 @@ HELPERS = {H_CALL: sx_call, H_GET: sx_getitem, H_SET: sx_setitem, H_DEL: sx_deli
 # ------------------------------------------------------------------------------------------
 # import hook
 # ------------------------------------------------------------------------------------------
-PLAIN_PREFIXES = ("autobahn.nvx", "autobahn.wamp.gen", "autobahn._version", "autobahn.wamp.flatbuffers",
+PLAIN_PREFIXES = ("autobahn.wamp.gen", "autobahn._version", "autobahn.wamp.flatbuffers",
                   "autobahn.xbr")
 
 SOURCES_READ = {}    # module name -> (path, sha1) : evidence of what was encoded
@@ -602,7 +602,7 @@ def compile_instrumented(src, path):
     return compile(tree, path, "exec", dont_inherit=True)
 
 
-def precompile(prefixes=("autobahn",), skip_dirs=("test", "testutil", "xbr", "nvx", "gen", "flatbuffers")):
+def precompile(prefixes=("autobahn",), skip_dirs=("test", "testutil", "xbr", "gen", "flatbuffers")):
     """instrument + compile (not execute) the working tree's modules once in the parent process, so that
     forked work units only exec them.  Regenerated from the current sources on every run (no disk cache)."""
     import hashlib
